@@ -406,6 +406,15 @@ def g_Sum(rng):
             for keepdims in (False, True):
                 out.append({"shape": shape, "axis": axis, "keepdims": keepdims, "dtype": "float64"})
     out.append({"shape": [2, 3], "axis": 0, "keepdims": False, "dtype": "complex128"})
+    # nested (BlockArray) input shapes: with an axis every block is reduced on its own, without one everything is summed;
+    # the axis is passed by keyword and POSITIONALLY (linop.Sum forwards positional arguments to snp.sum)
+    for blocks in ([[2, 3], [4, 3]], [[3, 2], [3, 2]], [[2, 2, 3], [1, 2, 3]]):
+        for axis in (0, 1, -1, None):
+            for positional in (False, True):
+                if axis is None and positional:
+                    continue
+                out.append({"blocks": blocks, "axis": axis, "positional": positional, "keepdims": False, "dtype": "float64",
+                            "must": blocks == [[2, 3], [4, 3]] and positional and axis in (0, 1)})
     return out
 
 
@@ -877,6 +886,13 @@ def build(name, c):
         if c["axes"] is None:
             return linop.Transpose(tuple(c["shape"]), input_dtype=_dt(c["dtype"]))
         return linop.Transpose(tuple(c["shape"]), tuple(c["axes"]), input_dtype=_dt(c["dtype"]))
+    if name == "Sum" and "blocks" in c:
+        bshape = tuple(tuple(b) for b in c["blocks"])
+        if c["axis"] is None:  # nothing passed for the axis: full reduction of the block array
+            return linop.Sum(bshape, input_dtype=_dt(c["dtype"]))
+        if c["positional"]:
+            return linop.Sum(bshape, c["axis"], input_dtype=_dt(c["dtype"]))
+        return linop.Sum(bshape, input_dtype=_dt(c["dtype"]), axis=c["axis"])
     if name == "Sum":
         return linop.Sum(tuple(c["shape"]), input_dtype=_dt(c["dtype"]), axis=_opt_tuple(c["axis"]), keepdims=c["keepdims"])
     if name == "Slice":
